@@ -9,6 +9,7 @@ import (
 
 func init() {
 	vRegister("HarnessC09_retain", HarnessC09_retain)
+	vRegister("HarnessC09_stream", HarnessC09_stream)
 	vRegister("HarnessC09_process", HarnessC09_process)
 	vRegister("HarnessC09_order", HarnessC09_order)
 	vRegister("HarnessC09_witness", HarnessC09_witness)
@@ -245,4 +246,39 @@ func HarnessC09_process() {
 		vAssert("C09.process.same", !e2 && vEq(o2, o1))
 	}
 	vCover("process.checked")
+}
+
+// HarnessC09_stream: a stream of three documents, each taking its
+// neighbour's interpolated value through a cross-document reference (so each
+// looks at a document that evaluation rewrites): the result is the same on
+// every run, whatever the iteration order - and, natively, whatever the
+// scheduling, should documents ever be evaluated concurrently.
+func HarnessC09_stream() {
+	c1 := ndScalarNN()
+	mk := func() []any {
+		peer := func(n string) any {
+			return map[string]any{"$replace": map[string]any{"$match": map[string]any{"name": n}, "$path": "val"}}
+		}
+		return []any{
+			map[string]any{"name": "d0", "src": "zero", "val": `$"v-{src}"`, "peer": peer("d1")},
+			map[string]any{"name": "d1", "src": c1, "val": `$"v-{src}"`, "peer": peer("d2")},
+			map[string]any{"name": "d2", "src": "two", "val": `$"v-{src}"`, "peer": peer("d0")},
+		}
+	}
+	ref, refErr := c10EvalDocs(mk())
+	vObserve("refErr", refErr != nil)
+	runs := 3
+	if vIsNative() {
+		runs = 300
+	}
+	for r := 0; r < runs; r++ {
+		vOrderGlobal(1 + r%3)
+		outs, err := c10EvalDocs(mk())
+		vOrderGlobal(0)
+		vAssert("C09.stream.status", (err != nil) == (refErr != nil))
+		if err == nil {
+			vAssert("C09.stream.output", vEq(outs, ref))
+		}
+	}
+	vCover("stream.checked")
 }
